@@ -109,4 +109,150 @@ theorem C20_splice_result_stable (a k : Nat) (w : Val) (h : Heap) (ha : a < h.ar
   simp only [h2, h1]
   rw [getArr_setArr_other _ _ _ _ hne, getArr_setArr_other _ _ _ _ hne, getArr_allocArr_new]
 
+/-! ## whole call sequences
+
+ECMAScript on a store of arrays (address = index: JavaScript object identity), for the listed methods with in-range
+arguments; `none` marks what the property excludes (start beyond the length, `pop` / `shift` of an empty array). The
+engine's `callArrayMethod` is run over the same operations. -/
+
+inductive Op where
+  | push (a : Nat) (w : Val)
+  | unshift (a : Nat) (ws : List Val)
+  | pop (a : Nat)
+  | shift (a : Nat)
+  | splice (a k : Nat)
+  | slice (a k : Nat)
+  | length (a : Nat)
+
+def jsStep (s : List (List Val)) : Op → Option (Val × List (List Val))
+  | .push a w => some (.N (((s.getD a []).length + 1 : Nat) : Rat), s.set a (s.getD a [] ++ [w]))
+  | .unshift a ws => some (.N ((ws.length + (s.getD a []).length : Nat) : Rat), s.set a (ws ++ s.getD a []))
+  | .pop a =>
+    match (s.getD a []).reverse with
+    | last :: ri => some (last, s.set a ri.reverse)
+    | [] => none
+  | .shift a =>
+    match s.getD a [] with
+    | first :: rest => some (first, s.set a rest)
+    | [] => none
+  | .splice a k =>
+    if k ≤ (s.getD a []).length then some (.arr s.length, (s ++ [(s.getD a []).drop k]).set a ((s.getD a []).take k)) else none
+  | .slice a k =>
+    if k ≤ (s.getD a []).length then some (.arr s.length, s ++ [(s.getD a []).drop k]) else none
+  | .length a => some (.N (((s.getD a []).length : Nat) : Rat), s)
+
+def jsRun : List Op → List (List Val) → Option (List Val × List (List Val))
+  | [], s => some ([], s)
+  | op :: rest, s =>
+    match jsStep s op with
+    | none => none
+    | some (r, s1) =>
+      match jsRun rest s1 with
+      | none => none
+      | some (rs, s2) => some (r :: rs, s2)
+
+def modelStep (op : Op) : M Val :=
+  match op with
+  | .push a w => callArrayMethod a "push" [w]
+  | .unshift a ws => callArrayMethod a "unshift" ws
+  | .pop a => callArrayMethod a "pop" []
+  | .shift a => callArrayMethod a "shift" []
+  | .splice a k => callArrayMethod a "splice" [.N (k : Nat)]
+  | .slice a k => callArrayMethod a "slice" [.N (k : Nat)]
+  | .length a => callArrayMethod a "length" []
+
+def modelRun : List Op → St → Except Err (List Val × St)
+  | [], st => .ok ([], st)
+  | op :: rest, st =>
+    match modelStep op st with
+    | .error e => .error e
+    | .ok (r, st1) =>
+      match modelRun rest st1 with
+      | .error e => .error e
+      | .ok (rs, st2) => .ok (r :: rs, st2)
+
+/-- results agree, except that the engine's `push` returns nothing where JavaScript returns the new length (recorded
+deviation: results of `push` are compared on the state only) -/
+def agree : List Op → List Val → List Val → Prop
+  | [], [], [] => True
+  | .push _ _ :: ops, _ :: js, _ :: ms => agree ops js ms
+  | _ :: ops, j :: js, m :: ms => j = m ∧ agree ops js ms
+  | _, _, _ => False
+
+theorem step_refines (op : Op) (st : St) (r : Val) (s1 : List (List Val)) (h : jsStep st.heap.arrs op = some (r, s1)) :
+    ∃ r' st1, modelStep op st = .ok (r', st1) ∧ st1.heap.arrs = s1 ∧ (match op with | .push _ _ => True | _ => r = r') := by
+  cases op with
+  | push a w =>
+    simp only [jsStep, Option.some.injEq, Prod.mk.injEq] at h
+    exact ⟨_, _, C20_push a w st, by simp [Heap.setArr, Heap.getArr, ← h.2], trivial⟩
+  | unshift a ws =>
+    simp only [jsStep, Option.some.injEq, Prod.mk.injEq] at h
+    refine ⟨_, _, C20_unshift a ws st, by simp [Heap.setArr, Heap.getArr, ← h.2], ?_⟩
+    simp [← h.1, Heap.getArr]
+  | pop a =>
+    simp only [jsStep] at h
+    split at h
+    · rename_i last ri hrev
+      simp only [Option.some.injEq, Prod.mk.injEq] at h
+      have hl : st.heap.getArr a = ri.reverse ++ [last] := by
+        have := congrArg List.reverse hrev
+        simpa [Heap.getArr] using this
+      exact ⟨_, _, C20_pop a st ri.reverse last hl, by simp [Heap.setArr, ← h.2], h.1.symm ▸ rfl⟩
+    · cases h
+  | shift a =>
+    simp only [jsStep] at h
+    split at h
+    · rename_i first rest hl
+      simp only [Option.some.injEq, Prod.mk.injEq] at h
+      exact ⟨_, _, C20_shift a st first rest (by simpa [Heap.getArr] using hl), by simp [Heap.setArr, ← h.2], h.1.symm ▸ rfl⟩
+    · cases h
+  | splice a k =>
+    simp only [jsStep] at h
+    split at h
+    · rename_i hk
+      simp only [Option.some.injEq, Prod.mk.injEq] at h
+      exact ⟨_, _, C20_splice a k st (by simpa [Heap.getArr] using hk),
+        by simp [Heap.setArr, Heap.allocArr, Heap.getArr, ← h.2], h.1.symm ▸ rfl⟩
+    · cases h
+  | slice a k =>
+    simp only [jsStep] at h
+    split at h
+    · rename_i hk
+      simp only [Option.some.injEq, Prod.mk.injEq] at h
+      exact ⟨_, _, C20_slice a k st (by simpa [Heap.getArr] using hk),
+        by simp [Heap.allocArr, Heap.getArr, ← h.2], h.1.symm ▸ rfl⟩
+    · cases h
+  | length a =>
+    simp only [jsStep, Option.some.injEq, Prod.mk.injEq] at h
+    exact ⟨_, _, C20_length a st, h.2, by simp [← h.1, Heap.getArr]⟩
+
+/-- **C20 (any call sequence).** For EVERY finite sequence of the listed calls with in-range arguments, on EVERY store:
+the engine's methods run without error, leave every array (aliases included: the store is addressed by identity) in the
+state JavaScript leaves it in, and return JavaScript's results. -/
+theorem C20_sequence (ops : List Op) (st : St) (rs : List Val) (s' : List (List Val))
+    (h : jsRun ops st.heap.arrs = some (rs, s')) :
+    ∃ rs' st', modelRun ops st = .ok (rs', st') ∧ st'.heap.arrs = s' ∧ agree ops rs rs' := by
+  induction ops generalizing st rs s' with
+  | nil =>
+    simp only [jsRun, Option.some.injEq, Prod.mk.injEq] at h
+    exact ⟨[], st, rfl, h.2, by rw [← h.1]; trivial⟩
+  | cons op rest ih =>
+    simp only [jsRun] at h
+    split at h
+    · cases h
+    · rename_i r s1 hstep
+      split at h
+      · cases h
+      · rename_i rs2 s2 hrest
+        simp only [Option.some.injEq, Prod.mk.injEq] at h
+        obtain ⟨r', st1, hm, hs1, hr⟩ := step_refines op st r s1 hstep
+        obtain ⟨rs', st', hrun, hs', hag⟩ := ih st1 rs2 s2 (by rw [hs1]; exact hrest)
+        refine ⟨r' :: rs', st', by simp [modelRun, hm, hrun], by rw [hs', h.2], ?_⟩
+        rw [← h.1]
+        cases op <;> first | exact hag | exact ⟨hr, hag⟩
+
+/-- non-vacuity: push through one address, read through the alias (same address), splice, push again -/
+example : (jsRun [.push 0 (.N 9), .length 0, .splice 0 1, .push 0 (.N 7), .length 1] [[.N 1, .N 2]]).map (·.2) =
+    some [[.N 1, .N 7], [.N 2, .N 9]] := by decide
+
 end Pug.Props.C20
